@@ -57,12 +57,14 @@ theorem rule_overlapping_fields_can_be_merged_iff_ranked (s : SchemaD) (fx : Fix
   obtain ⟨hpa, hsc, hnc⟩ := overlapHyps_of_wf_ranked s fx h7 d ranks hck hne hout hnd hac hsl hfc
   exact rule_overlapping_fields_can_be_merged_iff_partial s fx h7 d hpa hsc hnc
 
-/-! non-vacuity: the proposed ranks pass the check, by evaluation, on the documents of the earlier parts (one with
-    nested fields, one with two fragments); a fragment spreading itself has no ranks: the proposal fails the check -/
+/-! non-vacuity: the proposed ranks pass the check, by evaluation, on the documents of the earlier parts (a flat
+    one, one with two fragments) and on a nested selection; a fragment spreading itself has no ranks: the proposal fails the check -/
 example : DocChecksStatic oSchema oDocOk (computeRanks oDocOk) := ⟨by decide, by decide, by decide +kernel⟩
 example : DocChecksStatic oSchema (oDocFrag "a") (computeRanks (oDocFrag "a")) := ⟨by decide, by decide, by decide +kernel⟩
 example : NoCrash oSchema Fixes.all (oDocFrag "a") :=
   noCrash_of_ranks oSchema Fixes.all rfl _ (rankOf (computeRanks (oDocFrag "a"))) (by decide +kernel)
+example : let dc : Doc := ⟨[opV [] 1 [.field none "o" [] [] true 2 [.field none "o" [] [] true 3 [fld none "a"]]]]⟩
+    computeRanks dc = [(1, 6), (2, 4), (3, 2)] ∧ rankOkB oSchema dc (rankOf (computeRanks dc)) = true := by decide +kernel
 example : let dc : Doc := ⟨[.frag "F" "Query" [] 1 [.spread "F" []]]⟩
     rankOkB oSchema dc (rankOf (computeRanks dc)) = false := by decide +kernel
 
